@@ -13,3 +13,14 @@ package yreflect
 // MethodByName wraps reflect's method lookup (valid-and-non-zero check): a function of the value and the name.
 //@ func MethodByName
 //@ pure
+
+// OrderedMapElementType / OrderedMapKeyType return a parameter type of the ordered map's Append / Get method
+// (reflect's Type.In never returns nil); on error no type is returned.
+//@ func OrderedMapElementType
+//@ assumed
+//@ ensures (result1 == nil) == (result0 != nil)
+//@ modifies nothing
+//@ func OrderedMapKeyType
+//@ assumed
+//@ ensures (result1 == nil) == (result0 != nil)
+//@ modifies nothing
